@@ -43,13 +43,21 @@ def shift_quantity(bins, shsh, z, unit):
     return (arr * z.sample_rate / len(z)).to(unit)
 
 
+def make_df(case, var, z):
+    """the shift Quantity of a generated case: zeros as -0.0 in some concretisations, in the variant's unit and memory layout"""
+    df = shift_quantity(sl.lattice(case["S"], var.get("negzero", False)), tuple(case["shsh"]), z, FUNITS[var["unit"]])
+    return sl.relayout(df, var.get("layout", "C")) if case["shsh"] else df
+
+
 # ------------------------------------------------------------------ Gen -> code
 def variants(case, idx, rnd, n):
     dual = len(case["ssh"]) == 2 and case["ssh"][1] == 2
     return [{"kind": ["c16", "c8"][(idx + j) % 2], "dask": rnd.random() < 0.2, "rate": rnd.randrange(len(sl.RATES)),
              "start": rnd.random() < 0.6, "unit": rnd.randrange(len(FUNITS)),
              "cls": "DualPolarizationSignal" if dual and rnd.random() < 0.5 else "BasebandSignal",
-             "negzero": rnd.random() < 0.35} for j in range(n)]
+             "negzero": rnd.random() < 0.35,
+             # memory layout of the shift argument, Dask chunking of the sample axes
+             "layout": rnd.choice(sl.LAYOUTS), "chunks": rnd.randrange(5)} for j in range(n)]
 
 
 def replay_case(tab, case, var):
@@ -57,8 +65,9 @@ def replay_case(tab, case, var):
     info = {"boundary_cleared": 0, "boundary_kept": 0}
     N, ssh, shsh = case["N"], tuple(case["ssh"]), tuple(case["shsh"])
     data, cols = sl.build_data(tab, N, ssh, False, KINDS[var["kind"]])
-    z = sl.make_signal(data, var.get("cls", "BasebandSignal"), sl.RATES[var["rate"]], EPOCH if var["start"] else None, var["dask"])
-    df = shift_quantity(sl.lattice(case["S"], var.get("negzero", False)), shsh, z, FUNITS[var["unit"]])    # zeros as -0.0 in some
+    z = sl.make_signal(data, var.get("cls", "BasebandSignal"), sl.RATES[var["rate"]], EPOCH if var["start"] else None, var["dask"],
+                       chunks=var.get("chunks"))
+    df = make_df(case, var, z)
     tag = shape_tag(ssh, shsh)
     what = "freq_shift(N=%d, sample shape %r, shift %s bins shape %r, %s %s%s)" % (
         N, ssh, [s / 4 for s in case["S"]], shsh, var["kind"], var.get("cls", "BasebandSignal"), ", dask" if var["dask"] else "")
@@ -84,6 +93,13 @@ def replay_case(tab, case, var):
                         % (what, FUNITS[var["unit"]], float(np.abs(a2 - a).max()) if a2.shape == a.shape else -1.0)))
     except Exception as e:  # noqa
         out.append(("freq_shift:raised", "%s called again with the same objects raised %r" % (what, e)))
+    return out + judge(tab, case, var, a, xin, cols, what, tag, info), info
+
+
+def judge(tab, case, var, a, xin, cols, what, tag, info):
+    """a: result samples (N, elements), xin: input; against TLC's expected spectrum / samples per element"""
+    out = []
+    N = case["N"]
     Y = np.fft.fft(a, axis=0)
     for j, (c, q) in enumerate(zip(cols, case["qe"])):
         e = tab.get(N, c, q)
@@ -117,7 +133,64 @@ def replay_case(tab, case, var):
                 out.append(("freq_shift:value:" + ("whole-bin" if q % 4 == 0 else "fractional"),
                             "%s: element %d (shift %g bins): sample %d = %r, TLC expects %r (tol %.2g)"
                             % (what, j, q / 4, k, complex(a[k, j]), complex(e["y"][k]), tol)))
-    return out, info
+    return out
+
+
+def dask_group(tab, group, var):
+    """Dask: several lazy results of equal geometry (same signal, different shifts) evaluated in ONE graph,
+    each judged against its own expectation; and shift-after-shift chained lazily, against the eager chain"""
+    import dask
+    out = []
+    info = {"boundary_cleared": 0, "boundary_kept": 0}
+    N, ssh = group[0]["N"], tuple(group[0]["ssh"])
+    data, cols = sl.build_data(tab, N, ssh, False, KINDS[var["kind"]])
+    z = sl.make_signal(data, "BasebandSignal", sl.RATES[var["rate"]], EPOCH, True, chunks=var.get("chunks"))
+    zn = sl.make_signal(data.copy(), "BasebandSignal", sl.RATES[var["rate"]], EPOCH, False)
+    dfs = [make_df(c, var, z) for c in group]
+    what = "freq_shift x%d on one Dask signal (N=%d, sample shape %r, shifts %s bins, shapes %s, %s), one dask.compute" % (
+        len(group), N, ssh, [[s / 4 for s in c["S"]] for c in group], [tuple(c["shsh"]) for c in group], var["kind"])
+    try:
+        ys = [pb.freq_shift(z, df) for df in dfs]
+        arrays = dask.compute(*[y.data for y in ys], scheduler="synchronous")
+        chain = pb.freq_shift(pb.freq_shift(z, dfs[0]), dfs[1])
+        lazy = np.asarray(chain.data.compute(scheduler="synchronous")).reshape(N, -1).astype(np.complex128)
+        eager = np.asarray(pb.freq_shift(pb.freq_shift(zn, dfs[0]), dfs[1]).data).reshape(N, -1).astype(np.complex128)
+    except Exception as e:  # noqa
+        return [("freq_shift:raised", "%s raised %r" % (what, e))]
+    xin = data.reshape(N, -1).astype(np.complex128)
+    for c, arr in zip(group, arrays):
+        a = np.asarray(arr).reshape(N, -1).astype(np.complex128)
+        res = judge(tab, c, var, a, xin, cols, what + " -> result for shift %s" % [s / 4 for s in c["S"]],
+                    shape_tag(ssh, tuple(c["shsh"])), info)
+        out += [(k + ":one-graph", d) for k, d in res]
+    if not np.allclose(lazy, eager, rtol=0, atol=1e-5 * float(np.abs(xin).max())):
+        out.append(("freq_shift:lazy-chain-differs-from-eager",
+                    "freq_shift(freq_shift(z, %s), %s) chained lazily on Dask data differs from the same chain on NumPy data by %.3g (N=%d, sample shape %r)"
+                    % ([s / 4 for s in group[0]["S"]], [s / 4 for s in group[1]["S"]], float(np.abs(lazy - eager).max()), N, ssh)))
+    return out
+
+
+def run_dask_groups(chk, tab, cases, rnd, limit):
+    by = {}
+    for c in cases:
+        P = sl.padded(tuple(c["shsh"]), len(c["ssh"]), scalar_to_one=True)
+        by.setdefault((c["N"], tuple(c["ssh"]), P), []).append(c)
+    keys = [k for k in sorted(by) if len(by[k]) >= 2 and k[0] >= 2]
+    if len(keys) > limit:
+        keys = rnd.sample(keys, limit)
+    n = 0
+    for i, k in enumerate(keys):
+        group = rnd.sample(by[k], min(len(by[k]), 2 + i % 2))
+        var = variants(group[0], i, rnd, 1)[0]
+        var["dask"] = True
+        for key, desc in dask_group(tab, group, var):
+            tables = sub_table(tab, group[0])
+            for c in group[1:]:
+                tables = sl.merge_tables(tables, sub_table(tab, c))
+            chk.violation(key, desc, {"kind": "dgroup", "cases": group, "var": var, "table": tables})
+        n += len(group) + 1
+    chk.validated += n
+    chk.notes["dask_one_graph_results"] = n
 
 
 def run_sessions(chk, tab, pairs, rnd, limit, nvar):
@@ -173,6 +246,7 @@ class JsonTable(sl.Table):
 def run_replay(chk, tab, cases, rnd, limit, nvar):
     usable = [c for c in cases if all(tab.has(c["N"], q) for q in c["qe"])]
     run_sessions(chk, tab, sl.sessions(usable), rnd, max(60, limit // 12), nvar)
+    run_dask_groups(chk, tab, sl.first_calls(usable), rnd, max(50, limit // 20))
     by = {}
     for c in sl.first_calls(usable):
         by.setdefault((tuple(c["ssh"]), tuple(c["shsh"])), []).append(c)
@@ -244,7 +318,8 @@ def probe_params(rnd, thorough):
         out.append({"N": N, "ssh": list(ssh), "shsh": list(shsh), "A": A, "kind": ["c16", "c8"][i % 2], "probe": probe,
                     "pos": [rnd.randint(lo, hi) if probe == "tone" else rnd.randrange(N) for _ in range(nel)],
                     "dask": rnd.random() < 0.15, "rate": rnd.randrange(len(sl.RATES)), "unit": rnd.randrange(len(FUNITS)),
-                    "pick": rnd.randrange(1 << 30), "again": i % 2 == 1})
+                    "pick": rnd.randrange(1 << 30), "again": i % 2 == 1,
+                    "layout": rnd.choice(sl.LAYOUTS), "chunks": rnd.randrange(5)})
     return out
 
 
@@ -261,8 +336,10 @@ def drive_probe(p, eid):
             c[v] = 1
             cols.append(c)
     data = np.stack(cols, axis=1).reshape((N,) + ssh).astype(KINDS[p["kind"]])
-    z = sl.make_signal(data, "BasebandSignal", sl.RATES[p["rate"]], EPOCH, p["dask"])
+    z = sl.make_signal(data, "BasebandSignal", sl.RATES[p["rate"]], EPOCH, p["dask"], chunks=p.get("chunks"))
     df = shift_quantity(p["A"], shsh, z, FUNITS[p["unit"]])
+    if shsh:
+        df = sl.relayout(df, p.get("layout", "C"))
     # the requested shift in bins, exactly: df [Hz] / sample_rate [Hz] * N on the doubles the code sees
     dfv = np.asarray(df.to(u.Hz).value, dtype=np.float64).ravel()
     rate = exact.frac(float(z.sample_rate.to_value(u.Hz)))
@@ -366,7 +443,10 @@ def run(chk):
 
 def replay(doc):
     c = doc["case"]
-    if c["kind"] == "session":
+    if c["kind"] == "dgroup":
+        tab = JsonTable(c["cases"][0]["N"], c["table"])
+        bad = dask_group(tab, c["cases"], c["var"])
+    elif c["kind"] == "session":
         tab = JsonTable(c["cases"][0]["N"], c["table"])
         bad = []
         for step, case in enumerate(c["cases"]):
